@@ -117,12 +117,80 @@ for sess in sessions:
 json.dump(out, open(sys.argv[3], "w"))
 "#;
 
+
+const TYPED_SCRIPT: &str = r#"
+import sys, json, math
+sys.path.insert(0, sys.argv[1])
+import vibesql
+
+def dec(p):
+    t = p["t"]
+    if t == "none": return None
+    if t == "bool": return bool(p["v"])
+    if t == "int": return int(p["v"])
+    if t == "float": return float(p["v"])
+    return p["v"]
+
+def enc(v):
+    if v is None: return ["none", ""]
+    if isinstance(v, bool): return ["bool", str(v)]
+    if isinstance(v, int): return ["int", str(v)]
+    if isinstance(v, float): return ["float", repr(v)]
+    return ["str", v]
+
+def same(a, b):
+    if a is None or b is None: return a is None and b is None
+    if isinstance(a, bool) != isinstance(b, bool): return False
+    if isinstance(a, str) != isinstance(b, str): return False
+    if isinstance(a, float) != isinstance(b, float): return False
+    return a == b
+
+def attempt(f):
+    try:
+        return {"ok": True, "v": f()}
+    except BaseException as e:
+        return {"ok": False, "exc": type(e).__name__, "msg": str(e)[:160]}
+
+probes = json.load(open(sys.argv[2]))
+out = []
+for i, p in enumerate(probes):
+    v = dec(p["value"]); ty = p["type"]
+    tag = (" -- probe %d" % i) if p["distinct"] else ""
+    db = vibesql.connect(); cur = db.cursor()      # fresh cursor: no statement cached from another probe
+    cur.execute("CREATE TABLE t (k INTEGER, c %s)" % ty)
+    r = {}
+    def ins():
+        cur.execute("INSERT INTO t VALUES (1, ?)" + tag, (v,)); return cur.rowcount
+    r["insert"] = attempt(ins)
+    def rd():
+        cur.execute("SELECT c FROM t WHERE k = 1" + tag); rows = cur.fetchall()
+        return {"n": len(rows), "same": len(rows) == 1 and same(rows[0][0], v), "got": [enc(x[0]) for x in rows]}
+    r["read_after_insert"] = attempt(rd)
+    cur.execute("DELETE FROM t"); cur.execute("INSERT INTO t VALUES (2, NULL)")
+    def upd():
+        cur.execute("UPDATE t SET c = ? WHERE k = 2" + tag, (v,)); return cur.rowcount
+    r["update"] = attempt(upd)
+    def rd2():
+        cur.execute("SELECT c FROM t WHERE k = 2" + tag); rows = cur.fetchall()
+        return {"n": len(rows), "same": len(rows) == 1 and same(rows[0][0], v), "got": [enc(x[0]) for x in rows]}
+    r["read_after_update"] = attempt(rd2)
+    def wh():
+        cur.execute("SELECT k FROM t WHERE c = ?" + tag, (v,)); return len(cur.fetchall())
+    r["where"] = attempt(wh)
+    out.append(r)
+json.dump(out, open(sys.argv[3], "w"))
+"#;
+
 fn run_python(dir: &std::path::Path, sessions: &Value, tag: &str) -> Vec<Vec<Value>> {
+    serde_json::from_value(run_script(dir, "drive.py", sessions, tag)).unwrap()
+}
+
+fn run_script(dir: &std::path::Path, script: &str, sessions: &Value, tag: &str) -> Value {
     let inp = dir.join(format!("in-{}.json", tag));
     let outp = dir.join(format!("out-{}.json", tag));
     std::fs::write(&inp, serde_json::to_string(sessions).unwrap()).unwrap();
     let st = std::process::Command::new("python3")
-        .arg(dir.join("drive.py"))
+        .arg(dir.join(script))
         .arg(dir)
         .arg(&inp)
         .arg(&outp)
@@ -338,6 +406,7 @@ fn main() {
     }
     std::fs::copy("/repo/target/debug/libvibesql.so", args.scratch.join("vibesql.so")).expect("extension library not found");
     std::fs::write(args.scratch.join("drive.py"), PY_SCRIPT).unwrap();
+    std::fs::write(args.scratch.join("typed.py"), TYPED_SCRIPT).unwrap();
     rep.extra.insert("extension_build_s".into(), json!(t0.elapsed().as_secs_f64()));
     rep.extra.insert("tie".into(), json!("compiled extension driven from python3"));
 
@@ -547,6 +616,89 @@ fn main() {
             rep.traces_validated += 1;
             if outcome(&a[0]) != outcome(&b[0]) {
                 rep.fail(FailKind::ModelDiff, None, "the extension does not run the text the model's substitute produces", &format!("cursor.execute({:?}, {:?})\nreal: {}\nmodel's bound text run as plain SQL: {}", c.sql, c.params, outcome(&a[0]), outcome(&b[0])));
+            }
+        }
+    }
+
+    // ---- typed read-back: a value bound into a column of each type through INSERT, UPDATE and WHERE,
+    //      read back and compared with the Python value (type and value); once with SQL texts that are
+    //      distinct per probe and once with the same texts on a fresh cursor (no cached statement)
+    {
+        let mut ints: Vec<i64> = vec![0, 1, -1, 7, -7];
+        for b in [1i64 << 15, 1 << 16, 1 << 31, 1 << 32, 1 << 53] {
+            for d in [-2i64, -1, 0, 1, 2] {
+                ints.push(b + d);
+                ints.push(-b + d);
+            }
+        }
+        ints.extend([i64::MAX, i64::MAX - 1, i64::MIN, i64::MIN + 1, i64::MIN + 2, i16::MIN as i64, i16::MAX as i64, i32::MIN as i64, i32::MAX as i64]);
+        for _ in 0..args.n(20, 2000) {
+            ints.push(gen_int(&mut rng));
+        }
+        ints.sort();
+        ints.dedup();
+        let mut probes: Vec<(String, Py, Option<bool>)> = vec![]; // (column type, value, expected acceptance if the model decides it)
+        for ty in ["SMALLINT", "INTEGER", "BIGINT"] {
+            for n in &ints {
+                // SMALLINT gets the values near its own range only (plus a few far ones)
+                if ty == "SMALLINT" && n.unsigned_abs() > 70000 && n.unsigned_abs() != i64::MIN.unsigned_abs() {
+                    continue;
+                }
+                let reply = model.ask(&format!("bindint {} {}", ty.to_lowercase(), n));
+                let want = match Sx::parse(&reply) {
+                    Some(Sx::List(l)) if l.first().and_then(|x| x.as_atom()) == Some("ok") => {
+                        assert_eq!(l[1].as_atom(), Some(n.to_string().as_str()), "model stores another value: {}", reply);
+                        true
+                    }
+                    _ => false,
+                };
+                probes.push((ty.to_string(), Py::Int(*n), Some(want)));
+            }
+        }
+        for f in [0.0, -0.0, 0.5, -2.5, 0.1, 1e300, -1e300, f64::MAX, f64::MIN, f64::MIN_POSITIVE, 5e-324, -5e-324, 1e-7, 3.0, 9007199254740993.0, 1e19, -9.223372036854775808e18] {
+            probes.push(("DOUBLE PRECISION".into(), Py::Float(f), Some(true)));
+        }
+        for _ in 0..args.n(15, 1500) {
+            let f = gen_float(&mut rng, false);
+            probes.push(("DOUBLE PRECISION".into(), Py::Float(f), Some(true)));
+        }
+        for st in ["", "a", "'", "''", "?", "a?b'c", "\\", "\\'", "\"", "--", "; DROP TABLE t; --", "x' OR '1'='1", "é漢😀", "\n", " lead", "trail ", "%_", "NULL", "TRUE"] {
+            probes.push(("VARCHAR(200)".into(), Py::Str(st.to_string()), Some(true)));
+        }
+        for _ in 0..args.n(25, 2500) {
+            probes.push(("VARCHAR(200)".into(), Py::Str(gen_str(&mut rng)), Some(true)));
+        }
+        probes.push(("BOOLEAN".into(), Py::Bool(true), Some(true)));
+        probes.push(("BOOLEAN".into(), Py::Bool(false), Some(true)));
+        for ty in ["SMALLINT", "INTEGER", "BIGINT", "DOUBLE PRECISION", "VARCHAR(200)", "BOOLEAN"] {
+            probes.push((ty.into(), Py::None, Some(true)));
+        }
+        for distinct in [true, false] {
+            let req = Value::Array(probes.iter().map(|(ty, v, _)| json!({"type": ty, "value": v.json(), "distinct": distinct})).collect());
+            let res = run_script(&args.scratch, "typed.py", &req, if distinct { "typed-d" } else { "typed-r" });
+            for ((ty, v, want), r) in probes.iter().zip(res.as_array().unwrap().iter()) {
+                let id = format!("typed {} {:?} {}", ty, v, distinct);
+                rep.case(&id, !matches!(v, Py::None));
+                rep.count(&format!("typed_{}", ty.split(|c: char| !c.is_ascii_alphabetic()).next().unwrap_or("").to_lowercase()));
+                let ins_ok = r["insert"]["ok"].as_bool() == Some(true);
+                let upd_ok = r["update"]["ok"].as_bool() == Some(true);
+                rep.traces_validated += 1;
+                let want = want.unwrap_or(true);
+                // model vs code: the model's coercion accepts the value  <=>  INSERT and UPDATE accept it
+                if ins_ok != want || upd_ok != want {
+                    rep.fail(FailKind::ModelDiff, None, "typed binding: model and extension disagree on whether the column accepts the value", &format!("column type {} value {:?} (distinct texts: {})\nmodel accepts: {}\nresult: {}", ty, v, distinct, want, r));
+                }
+                // direct oracle: a value of the column's range is stored and read back as itself,
+                // and is found again by WHERE c = ? (NULL never matches)
+                if want {
+                    let same1 = r["read_after_insert"]["v"]["same"].as_bool() == Some(true);
+                    let same2 = r["read_after_update"]["v"]["same"].as_bool() == Some(true);
+                    let where_n = r["where"]["v"].as_i64();
+                    let where_ok = if matches!(v, Py::None) { where_n == Some(0) } else { where_n == Some(1) };
+                    if !(ins_ok && upd_ok && same1 && same2 && where_ok) {
+                        rep.fail(FailKind::Oracle, None, "a value bound into a column of its type does not read back equal (INSERT / UPDATE / WHERE)", &format!("column type {} value {:?} (distinct texts: {})\nresult: {}", ty, v, distinct, r));
+                    }
+                }
             }
         }
     }
